@@ -19,9 +19,17 @@ type Shape struct {
 	Wrap  string `json:"wrap"`  // e.g. "[[T!]]!"
 	Ctx   string `json:"ctx"`   // root nullobj nnobj listobj nnlistobj
 	Sel   string `json:"sel"`   // plain typename fragments
+	// Strip: the real plan with PossibleTypes / TypeName cleared on every object
+	// (what resolve.(*Object).Copy produces for subtrees duplicated by postprocess,
+	// and what hand-built plans look like): a selected __typename is then NOT
+	// validated and whatever string the subgraph sends is rendered.
+	Strip bool `json:"strip,omitempty"`
 }
 
 func (s Shape) String() string {
+	if s.Strip {
+		return fmt.Sprintf("f: %s | ctx=%s | sel=%s | plan without PossibleTypes", s.fieldType(), s.Ctx, s.Sel)
+	}
 	return fmt.Sprintf("f: %s | ctx=%s | sel=%s", s.fieldType(), s.Ctx, s.Sel)
 }
 
@@ -30,7 +38,13 @@ func (s Shape) fieldType() string { return strings.Replace(s.Wrap, "T", s.Named,
 // I1 is an interface with exactly one implementer, U1 a union with exactly one
 // member: abstract plan objects with a single possible type.
 var namedTypes = []string{"String", "Int", "Float", "Boolean", "ID", "E", "J", "O", "I", "U", "I1", "U1"}
-var contexts = []string{"root", "nullobj", "nnobj", "listobj", "nnlistobj"}
+
+// ifacelist: the parent is a list of a UNION PU = PIA | PIB whose members both
+// implement the interface PI, selected as `p { ... on PI { k f z } }`. A field
+// inside a fragment on an interface carries one type condition per implementer;
+// postprocess (merge_fields) duplicates it per implementer with Node.Copy(), so
+// the second implementer is rendered through a COPIED plan subtree.
+var contexts = []string{"root", "nullobj", "nnobj", "listobj", "nnlistobj", "ifacelist"}
 
 func isComposite(named string) bool {
 	switch named {
@@ -106,6 +120,16 @@ func allShapes(maxDepth int) []Shape {
 			}
 		}
 	}
+	// the same plans without PossibleTypes, for the shapes that select __typename
+	// on a concrete object and have no abstract position; appended at the end so
+	// that the canonical order of the planner-made shapes does not change
+	for _, s := range append([]Shape(nil), out...) {
+		if s.Sel != "typename" || s.Ctx == "ifacelist" || (isComposite(s.Named) && s.Named != "O") || (!isComposite(s.Named) && s.Ctx == "root") {
+			continue
+		}
+		s.Strip = true
+		out = append(out, s)
+	}
 	return out
 }
 
@@ -127,7 +151,11 @@ type tnode struct {
 	typeName string // object: declared type
 	possible []string
 	abstract bool
-	fields   []tfield
+	// anyTypename: the plan does not restrict the runtime type name of this
+	// (concrete) object; a selected __typename renders the subgraph's string
+	anyTypename bool
+	fragOn      string // the whole selection is wrapped in `... on <fragOn> { }`
+	fields      []tfield
 }
 
 type tfield struct {
@@ -268,6 +296,27 @@ func wrapNode(wrap string, named *tnode) *tnode {
 
 // tree builds the oracle's type tree of the whole response (root = Query).
 func (s Shape) tree() *tnode {
+	t := s.buildTree()
+	if s.Strip {
+		var mark func(n *tnode)
+		mark = func(n *tnode) {
+			switch {
+			case n == nil:
+			case n.kind == kList:
+				mark(n.item)
+			case n.kind == kObject:
+				n.anyTypename = true
+				for _, f := range n.fields {
+					mark(f.node)
+				}
+			}
+		}
+		mark(t)
+	}
+	return t
+}
+
+func (s Shape) buildTree() *tnode {
 	f := wrapNode(s.Wrap, namedNode(s.Named, s.Sel))
 	scalarTypename := !isComposite(s.Named) && s.Sel == "typename"
 	root := &tnode{kind: kObject, typeName: "Query", possible: []string{"Query"}}
@@ -297,6 +346,10 @@ func (s Shape) tree() *tnode {
 	case "nnlistobj":
 		p.nullable = false
 		pn = &tnode{kind: kList, nullable: false, item: p}
+	case "ifacelist":
+		p.typeName, p.possible, p.abstract, p.fragOn = "PU", []string{"PIA", "PIB"}, true, "PI"
+		p.nullable = true
+		pn = &tnode{kind: kList, nullable: true, item: p}
 	}
 	root.fields = append(root.fields, tfield{key: "p", node: pn})
 	return root
@@ -312,6 +365,8 @@ func (s Shape) parentType() string {
 		return "[P]"
 	case "nnlistobj":
 		return "[P!]!"
+	case "ifacelist":
+		return "[PU]"
 	}
 	return ""
 }
@@ -327,6 +382,9 @@ func (s Shape) sdl() string {
 	b.WriteString("interface I1 { x: String }\ntype I1A implements I1 { x: String a: Int! }\nunion U1 = U1A\ntype U1A { a: Int! }\n")
 	if s.Ctx == "root" {
 		fmt.Fprintf(&b, "type Query { k: String f: %s z: String! }\n", s.fieldType())
+	} else if s.Ctx == "ifacelist" {
+		body := fmt.Sprintf("{ k: String f: %s z: String! }", s.fieldType())
+		fmt.Fprintf(&b, "interface PI %s\ntype PIA implements PI %s\ntype PIB implements PI %s\nunion PU = PIA | PIB\ntype Query { p: %s }\n", body, body, body, s.parentType())
 	} else {
 		fmt.Fprintf(&b, "type P { k: String f: %s z: String! }\ntype Query { p: %s }\n", s.fieldType(), s.parentType())
 	}
@@ -345,6 +403,10 @@ func (s Shape) query() string {
 			return
 		}
 		b.WriteString(" {")
+		if n.fragOn != "" {
+			b.WriteString(" ... on " + n.fragOn + " {")
+			defer b.WriteString(" }")
+		}
 		frag := map[string][]tfield{}
 		var order []string
 		for _, f := range n.fields {
